@@ -408,6 +408,96 @@ def limit_violations(ctx, per_key=3):
     ctx.extra["monitor_hits_by_class"] = counts
 
 
+HEAD_IMPORTS = "Require Import PW.model.EnvHeaders."
+HEAD_KEYS = ["HTTP_X_FOO", "HTTP_ACCEPT", "HTTP_content_type", "HTTP_",
+             "HTTP__A", "HTTP_A__B_", "HTTP_CONTENT_TYPE",
+             "HTTP_CONTENT_LENGTH", "http_lower", "HTTPX", "CONTENT_MD5",
+             "content_type", "X_HTTP_Y", "HTTP_X-DASH", "HTTP_a1_2b",
+             "HTTP_X_REQUESTED_WITH", "HTTP_COOKIE", "HTTP_Content_Length",
+             "CONTENT_TYPE_", "HTTP_HOST", "REMOTE_USER", "HTTP_Z"]
+HEAD_CTYPES = ["text/plain", "application/json; charset=latin2",
+               'text/html; charset="utf-8"', "", "a;charset", "; charset=x",
+               "multipart/form-data; boundary=x", "Text/HTML;CHARSET=UTF-8",
+               'x/y; charset="a\\"b"; q=1', "x/y;charset=a;charset=b",
+               " text/css ; charset = iso-8859-2 ", "\xe9/\xe9"]
+HEAD_CLENS = ["0", "12", " 7 ", "+5", "-3", "1_0", "abc", "", "1__0", "_1",
+              "12_", "0x10", "1.5", "  ", "007", "\t42\n", "--1", "+", "-",
+              "1 2", "9999999999999999999999", "1_2_3", "+_1"]
+
+
+def head_cases(ctx, rng, count):
+    """random environments through the real Request constructor against
+    run_request_head; the primitives capitalize/split/join and int() of the
+    model against CPython's"""
+    from poorwsgi.request import Request
+    app = new_app(auto_json=False, auto_form=False, auto_data=False,
+                  auto_cookies=False)
+    cases = []
+    for idx in range(count):
+        base = environ(content_length=None)
+        base["REQUEST_STARTTIME"] = 0.0
+        extra = []
+        for key in rng.sample(HEAD_KEYS, rng.randrange(0, 6)):
+            extra.append((key, rng.choice(HEAD_CTYPES + HEAD_CLENS + ["v"])))
+        roll = rng.random()
+        if roll < 0.8:
+            extra.append(("CONTENT_TYPE", rng.choice(HEAD_CTYPES)))
+        if rng.random() < 0.8:
+            extra.append(("CONTENT_LENGTH", rng.choice(
+                HEAD_CLENS if rng.random() < 0.6 else
+                [str(rng.randrange(0, 10 ** rng.randrange(1, 12)))])))
+        items = list(base.items()) + extra
+        rng.shuffle(items)
+        env = dict(items)
+        if rng.random() < 0.04:
+            del env["PATH_INFO"]
+        try:
+            req = Request(env, app)
+            seen = [[list(kv) for kv in req.headers.items()], req.mime_type,
+                    req.charset, req.content_length]
+        except (ConnectionError, ValueError) as err:
+            seen = Exn(type(err).__name__)
+        model_env = [(k, v) for k, v in env.items() if isinstance(v, str)]
+        term = "run_request_head %s" % clist(
+            "(%s, %s)" % (slit(k), slit(v)) for k, v in model_env)
+        cases.append((term, seen, ("request head", model_env)))
+        shadow = [k for k in env if k.upper().replace("-", "_") in (
+            "HTTP_CONTENT_TYPE", "HTTP_CONTENT_LENGTH")]
+        ctx.count("head: %s" % ("error" if isinstance(seen, Exn) else
+                                "shadowing key present" if shadow else "ok"))
+        ctx.case(("head", tuple(model_env)), bool(extra),
+                 {"environ": model_env, "seen": repr(seen)})
+        # monitor, from the property text: what the parsers are told about
+        # the body is what was sent -- on an environment without a competing
+        # HTTP_CONTENT_* key the length is the decimal CONTENT_LENGTH
+        if not shadow and not isinstance(seen, Exn):
+            sent = env.get("CONTENT_LENGTH", "")
+            if sent.isascii() and sent.isdigit() and seen[3] != int(sent):
+                ctx.violation("content-length-not-as-sent", {
+                    "environ": model_env, "content_length": seen[3]})
+            if not sent and seen[3] != -1:
+                ctx.violation("content-length-not-as-sent", {
+                    "environ": model_env, "content_length": seen[3]})
+            if "CONTENT_TYPE" in env:
+                want = env["CONTENT_TYPE"].split(";")[0].strip()
+                if seen[1] != want:
+                    ctx.violation("mime-type-not-as-sent", {
+                        "environ": model_env, "mime_type": seen[1]})
+    for key in HEAD_KEYS + ["", "_", "A", "a_b", "AB_cD_", "__", "x_Y_z9"]:
+        cases.append(("run_cgi_name %s" % slit(key),
+                      "-".join(w.capitalize() for w in key.split("_")),
+                      ("capitalize/split/join", key)))
+    for text in HEAD_CLENS + [str(n) for n in (0, 7, 10, 65535, 10 ** 20)]:
+        try:
+            want = int(text)
+        except ValueError:
+            want = Exn("ValueError")
+        cases.append(("run_py_int %s" % slit(text), want, ("int()", text)))
+    ctx.correspondence("head", HEAD_IMPORTS,
+                       [(t, to_v(e), p) for t, e, p in cases],
+                       lambda p: [repr(x) for x in p])
+
+
 def run(ctx):
     limit_violations(ctx)
     ctx.check_obligations()
@@ -905,6 +995,11 @@ def run(ctx):
     ctx.correspondence("plan", IMPORTS,
                        [(t, to_v(e), p) for t, e, p in pcases],
                        lambda p: [repr(x) for x in p])
+
+    # ------------------------------------------------------------------
+    # (vi) the head of Request.__init__: headers rebuilt from the CGI
+    # variables, media type, charset, content length (model/EnvHeaders.v)
+    head_cases(ctx, rng, 300 if quick else 4000)
 
     return ctx.finish(
         "pair lists of length 0-8 (quick 0-4) over keys/values from the "
